@@ -116,7 +116,7 @@ func main() {
 	run.Set("combinations_scheduled", len(jobs))
 
 	// the heavy "big snapshot, busy source" family, from its own PRNG stream
-	nBig := run.N(2, 6)
+	nBig := run.N(3, 8)
 	type bigJob struct {
 		key, backend string
 	}
